@@ -240,6 +240,23 @@ def build():
                hints=dict(var_types=dict(VT, element_names='Seq[str]', link_props='Seq[bool]', links='Seq[bool]', cardinalities='Seq[Cardinality]', sources='Seq[Obj]'),
                           ghost_out=['gp'],
                           ext_funcs={'_describe_object_type': wf_override('type_id', 'type_id')['_describe_object_type']}))
+    # ---- the decoder (the server's own reader of descriptors: state and arguments).  A scalar descriptor lists its ancestors in resolution order (nearest first,
+    # docs/reference/reference/protocol/typedesc.rst), so the type whose codec encodes the values -- the FUNDAMENTAL type -- is the LAST ancestor; with no ancestors
+    # the scalar is fundamental itself (None recorded).  Protocol < 2.0 sends the fundamental type as one reference.
+    w.refclass('PCtx', {'protocol_version': 'Tuple[int,int]'})
+    w.refclass('ScD', {'tid': 'Obj', 'name': 'Opt[str]', 'schema_defined': 'Opt[bool]', 'fundamental_type': 'Opt[Obj]', 'ancestors': 'Opt[Seq[Obj]]'}, SER, 'ScalarDesc')
+    PX = {'_parse_type_id': dict(params={'desc': 'Obj'}, returns='Obj', modifies=[]), '_parse_string': dict(params={'desc': 'Obj'}, returns='str', modifies=[]),
+          '_parse_bool': dict(params={'desc': 'Obj'}, returns='bool', modifies=[]),
+          '_parse_type_refs': dict(params={'desc': 'Obj', 'ctx': 'PCtx'}, returns='Seq[Obj]', modifies=[]),
+          '_parse_type_ref': dict(params={'desc': 'Obj', 'ctx': 'PCtx'}, returns='Obj', modifies=[])}
+    w.contract(SER, '_parse_scalar_descriptor', params={'_tag': 'Obj', 'desc': 'Obj', 'ctx': 'PCtx'}, returns='ScD', ghost={'g_ref': 'Obj'},
+        modifies=['$alloc'],
+        ghost_after={'fundamental_type = _parse_type_ref(desc, ctx=ctx)': [('g_ref', 'fundamental_type')]},
+        ensures=['implies(ctx.protocol_version >= (2, 0), result.ancestors is not None)',
+                 'implies(ctx.protocol_version >= (2, 0) and len(result.ancestors) > 0, result.fundamental_type is not None and result.fundamental_type == result.ancestors[len(result.ancestors) - 1])',
+                 'implies(ctx.protocol_version >= (2, 0) and len(result.ancestors) == 0, result.fundamental_type is None)',
+                 'implies(not (ctx.protocol_version >= (2, 0)), result.ancestors is None and result.fundamental_type is not None and result.fundamental_type == g_ref)'],
+        hints={'ext_funcs': PX, 'ghost_out': ['g_ref']})
     return w
 
 # ---------------------------------------------------------------------------------------------------------------------
